@@ -104,7 +104,28 @@ def scope_rules(F, rep, rule):
                    sc.fns[R + m]["sp"])
     for note, where in sc.notes:
         rep.ob(rule, "note|" + note, False, "stack.clear() outside an is_empty() guard", where)
+    # a loop over children must restore the stack in every iteration, even if the construct as a whole ends balanced
+    seen_l = set()
+    for body, got, base in sc.loop_leaks:
+        key = line_of(body)
+        if key in seen_l:
+            continue
+        seen_l.add(key)
+        rep.ob(rule, "loop-iteration|%s" % _loop_owner(sc, body), False,
+               "one iteration of this loop over child nodes changes the stack height (%s -> %s): what is pushed for one child is "
+               "still in scope while the next child is resolved (e.g. `self`, pushed for a method field of a blob literal, stays "
+               "visible in the fields that follow), even though the stack is restored after the loop" % (base, got), line_of(body))
+    rep.ob(rule, "loop-iterations|balanced", not sc.loop_leaks,
+           "every loop over child nodes restores the stack height at the end of each iteration", None, sites=0)
     return sc
+
+
+def _loop_owner(sc, body):
+    for p, fn in sc.fns.items():
+        for n in nodes(fn_body(fn)):
+            if n is body:
+                return last(p, 2)
+    return "?"
 
 
 def lookup_order(F, rep):
